@@ -57,8 +57,13 @@ where
     }
 
     /// Inserts the `value` into the data structure.
+    ///
+    /// Inserting a value that is already known does nothing, so that it stays in
+    /// whichever set it has been joined into.
     pub fn insert(&mut self, value: Value) {
-        self.reps.insert(&value.clone(), value);
+        if self.reps.get(&value).is_none() {
+            self.reps.insert(&value.clone(), value);
+        }
     }
 
     /// Finds the root element corresponding to the query `value`.
